@@ -443,6 +443,67 @@ func c10IssuePathNested(x *mc.X, where int) *mc.Outcome {
 	return out
 }
 
+// The sanitizers are functions of the map they are given: for ANY issue map a caller holds — results of several
+// schemas merged under prefixes, issues filed through the deprecated Ctx.NewError (which files an issue under a
+// path without touching the issue's own Path field) — they return the same keys and order carrying only the
+// messages. One execution = one map over the keys {$root, name, a.b} with 0..2 issues each drawn from four
+// issues with distinct messages and Path fields, and one of the four under $first.
+func c10SanitizeComposedScenario(x *mc.X) *mc.Outcome {
+	zh.Reset()
+	zh.Install(x, zh.PoolLIFO, zh.OrderSorted)
+	paths := []string{"", "name", "a.b", "name"}
+	var pool []*z.ZogIssue
+	for i, p := range paths {
+		pool = append(pool, (&z.ZogIssue{}).SetCode(fmt.Sprintf("c%d", i)).SetPath(p).SetMessage(fmt.Sprintf("message %d", i)))
+	}
+	m := z.ZogIssueMap{}
+	var desc []string
+	for _, k := range []string{"$root", "name", "a.b"} {
+		n := x.Choose(3, k+".len")
+		var l []*z.ZogIssue
+		for j := 0; j < n; j++ {
+			l = append(l, pool[x.Choose(len(pool), k+".issue")])
+		}
+		if n > 0 {
+			m[k] = l
+			desc = append(desc, fmt.Sprintf("%s:%v", k, issueCodes(l)))
+		}
+	}
+	fi := x.Choose(len(pool), "$first")
+	m["$first"] = []*z.ZogIssue{pool[fi]}
+	desc = append(desc, fmt.Sprintf("$first:%v", issueCodes(m["$first"])))
+	collect := x.Bool("SanitizeMapAndCollect")
+	want := map[string][]string{}
+	for k, l := range m {
+		for _, is := range l {
+			want[k] = append(want[k], is.Message)
+		}
+	}
+	var got map[string][]string
+	pmsg := func() (msg string) {
+		defer func() {
+			if r := recover(); r != nil {
+				msg = firstLine(fmt.Sprint(r))
+			}
+		}()
+		if collect {
+			// (the issues are the caller's own objects: handing them to the pool afterwards is the documented use)
+			got = z.Issues.SanitizeMapAndCollect(m)
+		} else {
+			got = z.Issues.SanitizeMap(m)
+		}
+		return ""
+	}()
+	zh.Reset()
+	out := &mc.Outcome{Traces: 1, Nontrivial: len(m) > 1, Sig: fmt.Sprintf("sanitize|%d|%v", len(m), collect)}
+	out.Sample = map[string]any{"map": desc, "sanitized": got}
+	if pmsg != "" || !reflect.DeepEqual(got, want) {
+		x.Note("issue map (code@Path per entry): %v; entry point SanitizeMapAndCollect=%v", desc, collect)
+		out.Viol = append(out.Viol, &mc.Violation{Key: "C10:sanitize-composed-map", What: "SanitizeMap does not return the same keys and order carrying only the messages", Expected: fmt.Sprint(want), Observed: fmt.Sprintf("panic=%q %v", pmsg, got)})
+	}
+	return out
+}
+
 func c10Items(tier string, mk func(tier string, tags map[string]int, focus []string, deep bool, elems int) mc.Scenario) []Item {
 	var items []Item
 	deep := tier == "thorough"
@@ -455,7 +516,7 @@ func c10Items(tier string, mk func(tier string, tags map[string]int, focus []str
 		}
 	}
 	// (B) uniform tag configurations × ≤2 focus units
-	for _, cfg := range []int{0, 1, 2, 3, 5, 6, 7} {
+	for _, cfg := range []int{0, 1, 2, 3, 5, 6, 7, 8} {
 		tv := uniformTags(fields, cfg)
 		for _, fs := range focusSets(units, 2) {
 			if len(fs) < 2 {
@@ -519,6 +580,7 @@ func init() {
 		Items: func(tier string) []Item {
 			items := c10Items(tier, c10Scenario)
 			items = append(items, Item{Name: "issuepath", MaxDevs: -1, Run: c10IssuePathScenario})
+			items = append(items, Item{Name: "sanitize-composed-maps", MaxDevs: -1, Run: c10SanitizeComposedScenario})
 			// keys must not depend on what earlier calls read: sequences that start with a record parsed through any front end
 			items = append(items, callsItemsOpt(tier, "C10", func(class string) bool { return strings.HasPrefix(class, "record") }, true, "depends-on-history", "nested-call-differs", "earlier-result-changed")...)
 			return items
